@@ -451,7 +451,8 @@ def run(ctx):
         if res["status"] == "population-does-not-terminate" and kwc.get("accumulate_weights") and kwc.get("constant_volume_mode") is False:
             # one underlying input: weight accumulation with a non-constant-volume (inflated) latent contour
             label = "std:accumulate_weights=True+constant_volume_mode=False(+any radius option)"
-        if res["status"] == "population-does-not-terminate" and res.get("phase") == "initial-live-points" and kwc.get("maximum_uninformed") == 0 and kwc.get("maximum_uninformed") is not False:
+        if res["status"] == "population-does-not-terminate" and res.get("phase") == "initial-live-points" and kwc.get("maximum_uninformed") is not None and not kwc.get("maximum_uninformed"):
+            # (False is stored as 0 by the sampler - `elif not maximum_uninformed: self.maximum_uninformed = 0` - the same input)
             # one underlying input: with maximum_uninformed=0 the INITIAL live points are drawn from the
             # untrained flow proposal, whose (collapsed) output may lie outside the prior bounds
             label = "std:maximum_uninformed=0(+any option): initial live points drawn from the untrained flow"
